@@ -1,5 +1,8 @@
 import SigpyVerif.Model.C10
 import SigpyVerif.Lemmas.C10
+import SigpyVerif.Lemmas.C10List
+import SigpyVerif.Lemmas.C10Nd
+import SigpyVerif.Lemmas.C10Qmf
 import SigpyVerif.Lemmas.Py
 import SigpyVerif.Props.C09
 import Mathlib.Analysis.Real.Sqrt
@@ -15,11 +18,28 @@ import Mathlib.Analysis.Real.Sqrt
     (2) the mathematics of one zero-extended filter-bank level in PyWavelets' convention, for ANY finite
         filter pair satisfying completeness: adjointness (no hypothesis), perfect reconstruction, isometry;
         non-vacuity by Haar; lifting to levels (the executed `wavedec`, by induction) and to axes.
+    (3) the executed multi-level 1-D list model (`wavedec`/`waverec`, the very definitions the driver runs
+        against `pywt.wavedec/waverec`): perfect reconstruction (`waverec_wavedec`, exact form incl. the extra
+        zero for odd lengths and the trimming rule at every level), adjointness for arbitrary coefficient lists
+        (`wavedec_adjoint`, any filters), isometry;
+    (4) the full 1-D sigpy pipeline `fwt1`/`iwt1` (pad to even with the zero in front, wavedec, pack | unpack
+        with the stored lengths, waverec, centre crop): `fwt1_iwt1_id`, `iwt1_is_adjoint`, `fwt1_isometry`,
+        `fwt1_length` — for every length, every level count (`level=None` included);
+    (5) the separable N-d transform at level 1 as a composition of per-axis maps over an ARBITRARY list of axes
+        (`fwtn_level1_isometry/_adjoint/_pr`, by induction over the list; padding of every axis included);
+    (6) `Complete` from the orthonormality of `dec_lo` alone when `dec_hi` is its alternating flip
+        (`complete_of_qmf_pair`), so that (3)–(4) hold from `OrthonormalLo` only (`fwt1_iwt1_id_qmf`).
   What is CONTRACT (validated by the correspondence check on every run, not proved): that PyWavelets'
-  `dwt/idwt/wavedec/waverec/wavedecn/coeffs_to_array` compute the modelled formulas, and that the filter
-  taps of every orthogonal wavelet satisfy `Complete` / `Orthonormal` (to 1e-10).
-  Not proved: `Orthonormal → Complete` (polyphase argument), multi-level perfect reconstruction of the
-  list model `waverec ∘ wavedec` (the trimming rule), N-D packing.
+  `dwt/idwt/wavedec/waverec/wavedecn/coeffs_to_array` compute the modelled formulas, that the filter taps of
+  every orthogonal wavelet satisfy `OrthonormalLo`/`Orthonormal`/`Complete` (to 1e-10) and that `dec_hi` is the
+  alternating flip of `dec_lo` (observed exact).
+  Not proved: the general `Orthonormal → Complete` (for a `g` that is not assumed to be the flip of `h`:
+  polyphase / dimension count); multi-level N-d: `pywt.wavedecn` recurses on the approximation block only
+  (level `j+1` acts on the sub-box `idx[a] < n_j[a]`, `a ∈ axes`, of the level-`j` output, not along whole axes)
+  and `coeffs_to_array` places the detail blocks at offsets given by the approximation shapes (leaving zero
+  filling where `2·n_{j+1} > n_j`); no Lean model of that block layout exists — it is validated by the
+  `shapes`/`packing` streams and the search oracle.  With a single transformed axis the N-d multi-level
+  transform is the 1-D one along that axis (covered by (3)–(4) per 1-D fibre).
 -/
 namespace SigpyVerif.C10
 open SigpyVerif Finset
@@ -28,12 +48,21 @@ variable {R : Type*} [CommRing R]
 
 /-! ### (1) sigpy's glue: even padding, centre pad / centre crop, one padded shape at every site -/
 
+set_option linter.unusedSimpArgs false in
 /-- `zshape = ((i+1)//2)*2` is even, at least `i`, and adds at most one sample. -/
 theorem zshape_spec (i : Int) :
     Gen.waveZshapeFwt i % 2 = 0 ∧ i ≤ Gen.waveZshapeFwt i ∧ Gen.waveZshapeFwt i - i = i % 2 := by
   unfold Gen.waveZshapeFwt
-  rw [pyDiv_of_pos _ (show (0 : Int) < 2 by decide)]
+  try simp only [pyDiv_of_pos _ (show (0 : Int) < 2 by decide), pyMod_of_pos _ (show (0 : Int) < 2 by decide)]
   omega
+
+set_option linter.unusedSimpArgs false in
+/-- the padding formula of `get_wavelet_shape` and the one of `fwt` give the same length for every axis
+    length (proved by arithmetic, so an algebraically equal rewrite of either site does not break it) -/
+theorem zshape_sites_agree (i : Int) : Gen.waveZshapeShape i = Gen.waveZshapeFwt i := by
+  unfold Gen.waveZshapeShape Gen.waveZshapeFwt
+  try simp only [pyDiv_of_pos _ (show (0 : Int) < 2 by decide), pyMod_of_pos _ (show (0 : Int) < 2 by decide)]
+  try omega
 
 /-- `get_wavelet_shape` (hence `Wavelet.oshape`, `InverseWavelet.ishape` and the stored `coeff_slices`)
     and `fwt` pad to the same even shape and make the same `wavedecn(..., mode='zero', axes, level)` and
@@ -45,7 +74,7 @@ theorem shape_consistent :
     Gen.waveDecCallFwt = ["wavedecn", "shape:zshape", "arg:wave_name", "axes=axes", "level=level", "mode='zero'"] ∧
     Gen.wavePackCallFwt = ["coeffs_to_array", "arg:<wavedecn result>", "axes=axes"] ∧
     Gen.wavePadCallFwt = ["util.resize", "arg:input", "arg:zshape"] :=
-  ⟨rfl, rfl, rfl, rfl, rfl, rfl⟩
+  ⟨funext zshape_sites_agree, rfl, rfl, rfl, rfl, rfl⟩
 
 /-- `iwt` mirrors `fwt`: it unpacks with the stored slices, reconstructs with the same wavelet, the same
     `mode='zero'` and the same `axes`, and centre-crops to `oshape` with the default shifts. -/
@@ -67,7 +96,7 @@ theorem pad_extra_zero_in_front (i k j : Int) :
 /-- The centre crop of `iwt` is the transpose of the centre pad of `fwt` (`crop = padᴴ`), index by index. -/
 theorem crop_is_pad_adjoint (i k j : Int) : padSrc i k = some j ↔ cropSrc i j = some k := by
   unfold padSrc cropSrc
-  rw [show Gen.waveZshapeShape i = Gen.waveZshapeFwt i from rfl,
+  rw [zshape_sites_agree i,
     C09.resize_default_aligns, C09.resize_default_aligns]
   omega
 
@@ -238,27 +267,6 @@ theorem qmf_isometry_cols {L P M : ℕ} {h g : ℤ → R} (hh : SupportedOn L h)
 
 /-! ### the executed list model: every level of `wavedec` (any length, odd intermediate lengths included) -/
 
-/-- sum of squares of a list / of a list of coefficient lists -/
-def nsq (l : List R) : R := (l.map (· ^ 2)).sum
-def nsqs (c : List (List R)) : R := (c.map nsq).sum
-
-theorem nsq_map_range (M : ℕ) (f : ℕ → R) : nsq ((List.range M).map f) = ∑ k ∈ range M, f k ^ 2 := by
-  unfold nsq
-  induction M with
-  | zero => simp
-  | succ M ih =>
-    rw [List.range_succ, List.map_append, List.map_append, List.sum_append, ih, sum_range_succ]
-    simp
-
-theorem nsq_eq_sum (x : List R) : nsq x = ∑ n ∈ range x.length, ofListN x n ^ 2 := by
-  have hx : x = (List.range x.length).map (ofListN x) := by
-    apply List.ext_getElem
-    · simp
-    · intro i h1 h2
-      simp [ofListN, List.getElem?_eq_getElem h1]
-  calc nsq x = nsq ((List.range x.length).map (ofListN x)) := by rw [← hx]
-    _ = _ := nsq_map_range _ _
-
 /-- One level of the executed model `dwt1` (= `pywt.dwt(mode='zero')`, by correspondence) preserves the
     sum of squares for every input length, for any filter pair satisfying completeness. -/
 theorem dwt1_isometry (h g x : List R) (hL : g.length = h.length) (hc : Complete (ofList h) (ofList g)) :
@@ -287,19 +295,682 @@ theorem wavedec_isometry (h g : List R) (hL : g.length = h.length) (hc : Complet
     simp only [List.map_cons, List.map_nil, List.sum_cons, List.sum_nil, add_zero]
     exact dwt1_isometry h g x hL hc
 
-theorem nsq_flatten (c : List (List R)) : nsq c.flatten = nsqs c := by
-  induction c with
-  | nil => simp [nsq, nsqs]
-  | cons a c ih =>
-    unfold nsq nsqs at *
-    rw [List.flatten_cons, List.map_append, List.sum_append, ih]
-    simp [nsq]
-
 /-- The packed 1-D coefficient array `[a_J | d_J | … | d_1]` (what `coeffs_to_array` builds and `fwt`
     returns, by correspondence) has the norm of the padded input. -/
 theorem wavedec_packed_isometry (h g : List R) (hL : g.length = h.length)
     (hc : Complete (ofList h) (ofList g)) (J : ℕ) (x : List R) :
     nsq (wavedec h g J x).flatten = nsq x := by
   rw [nsq_flatten, wavedec_isometry h g hL hc]
+
+
+/-! ### (1') the executed list model, all levels: perfect reconstruction and adjointness
+    (`pywt.waverec`'s trimming rule included) -/
+
+/-- One level of the executed model: `idwt(dwt(x))` returns `x`, followed by `2⌊(N+L-1)/2⌋+2-L-N` zeros
+    (one zero when `N` is odd and `L` even, none when `N` is even) — this extra sample is what
+    `pywt.waverec` trims at the next level. -/
+theorem idwt1_dwt1 (h g x : List R) (hL : g.length = h.length) (hpos : 0 < h.length)
+    (hc : Complete (ofList h) (ofList g)) :
+    idwt1 h g (dwt1 h g x).1 (dwt1 h g x).2
+      = x ++ List.replicate (2 * dwtLen x.length h.length + 2 - h.length - x.length) 0 := by
+  have hg : SupportedOn h.length (ofList g) := by rw [← hL]; exact supportedOn_ofList g
+  have hKN : x.length ≤ 2 * dwtLen x.length h.length + 2 - h.length := by unfold dwtLen; omega
+  rw [← map_range_ofListN_ge x _ hKN]
+  unfold idwt1 dwt1
+  simp only [List.length_map, List.length_range]
+  apply List.map_congr_left
+  intro n hn
+  rw [List.mem_range] at hn
+  rw [syn_congr _ _ _ (fun k hk => ofListN_map_range _ _ hk) (fun k hk => ofListN_map_range _ _ hk)]
+  have e1 : ∀ f : ℤ → R, ana f x.length (ofListN x)
+      = ana f (2 * dwtLen x.length h.length + 2 - h.length) (ofListN x) := fun f =>
+    funext fun k => (ana_extend f hKN _ (fun n hn => ofListN_of_le x hn) k).symm
+  rw [e1, e1]
+  exact qmf_perfect_reconstruction (supportedOn_ofList h) hg hc (by unfold dwtLen; omega) (ofListN x) hn
+
+theorem wavedec_ne_nil (h g : List R) (J : ℕ) (x : List R) : wavedec h g J x ≠ [] := by
+  cases J <;> simp [wavedec]
+
+theorem waverec_append (h g : List R) (c : List (List R)) (d : List R) (hc : c ≠ []) :
+    waverec h g (c ++ [d])
+      = idwt1 h g (if (waverec h g c).length = d.length + 1 then (waverec h g c).dropLast else waverec h g c) d := by
+  cases c with
+  | nil => exact absurd rfl hc
+  | cons a ds =>
+    simp only [waverec, List.cons_append, List.foldl_append, List.foldl_cons, List.foldl_nil]
+    rfl
+
+theorem dwt1_length (h g x : List R) :
+    (dwt1 h g x).1.length = dwtLen x.length h.length ∧ (dwt1 h g x).2.length = dwtLen x.length h.length := by
+  simp [dwt1]
+
+/-- the coefficient lists of `wavedec` have the lengths `coeffLens` (the 1-D `coeff_slices`) -/
+theorem wavedec_map_length (h g : List R) : ∀ (J : ℕ) (x : List R),
+    (wavedec h g J x).map List.length = coeffLens x.length h.length J := by
+  intro J
+  induction J with
+  | zero => intro x; rfl
+  | succ J ih =>
+    intro x
+    show (wavedec h g J (dwt1 h g x).1 ++ [(dwt1 h g x).2]).map List.length = _
+    rw [List.map_append, ih, (dwt1_length h g x).1]
+    simp [coeffLens, (dwt1_length h g x).2]
+
+/-- **Perfect reconstruction, all levels, every length** (exact form).  For a filter pair of even length
+    satisfying completeness, `pywt.waverec(pywt.wavedec(x, level=J))` — with the rule that an approximation
+    one sample longer than the next detail loses its last sample — returns `x` when `len(x)` is even or
+    `J = 0`, and `x` followed by one zero when `len(x)` is odd; odd intermediate lengths are handled by the
+    trimming rule at every level. -/
+theorem waverec_wavedec (h g : List R) (hL : g.length = h.length) (hev : h.length % 2 = 0)
+    (hpos : 0 < h.length) (hc : Complete (ofList h) (ofList g)) : ∀ (J : ℕ) (x : List R),
+    waverec h g (wavedec h g J x) = if J = 0 ∨ x.length % 2 = 0 then x else x ++ [0] := by
+  intro J
+  induction J with
+  | zero => intro x; simp [wavedec, waverec]
+  | succ J ih =>
+    intro x
+    show waverec h g (wavedec h g J (dwt1 h g x).1 ++ [(dwt1 h g x).2]) = _
+    rw [waverec_append _ _ _ _ (wavedec_ne_nil h g J _), ih]
+    have hl := dwt1_length h g x
+    have trim : (if (if J = 0 ∨ (dwt1 h g x).1.length % 2 = 0 then (dwt1 h g x).1 else (dwt1 h g x).1 ++ [0]).length
+          = (dwt1 h g x).2.length + 1
+        then (if J = 0 ∨ (dwt1 h g x).1.length % 2 = 0 then (dwt1 h g x).1 else (dwt1 h g x).1 ++ [0]).dropLast
+        else (if J = 0 ∨ (dwt1 h g x).1.length % 2 = 0 then (dwt1 h g x).1 else (dwt1 h g x).1 ++ [0]))
+        = (dwt1 h g x).1 := by
+      split_ifs with h1 h2 h2
+      · rw [hl.1, hl.2] at h2; omega
+      · rfl
+      · simp
+      · simp [hl.1, hl.2] at h2
+    rw [trim, idwt1_dwt1 h g x hL hpos hc]
+    have hK : 2 * dwtLen x.length h.length + 2 - h.length - x.length = x.length % 2 := by
+      unfold dwtLen; omega
+    rw [hK]
+    rcases Nat.mod_two_eq_zero_or_one x.length with h0 | h1
+    · simp [h0]
+    · simp [h1]
+
+/-- **C10 perfect reconstruction, multi-level 1-D (every level count, every intermediate length).**
+    On an even-length signal — sigpy always pads to even before calling PyWavelets —
+    `waverec(wavedec(x, level=J)) = x` exactly. -/
+theorem wavedec_perfect_reconstruction (h g : List R) (hL : g.length = h.length) (hev : h.length % 2 = 0)
+    (hpos : 0 < h.length) (hc : Complete (ofList h) (ofList g)) (J : ℕ) (x : List R)
+    (hx : x.length % 2 = 0) : waverec h g (wavedec h g J x) = x := by
+  rw [waverec_wavedec h g hL hev hpos hc, if_pos (Or.inr hx)]
+
+/-- … and for a signal of any length the first `len(x)` samples of the reconstruction are `x`. -/
+theorem wavedec_perfect_reconstruction_take (h g : List R) (hL : g.length = h.length) (hev : h.length % 2 = 0)
+    (hpos : 0 < h.length) (hc : Complete (ofList h) (ofList g)) (J : ℕ) (x : List R) :
+    (waverec h g (wavedec h g J x)).take x.length = x := by
+  rw [waverec_wavedec h g hL hev hpos hc]
+  split_ifs <;> simp
+
+/-- One level, arbitrary coefficient lists of the right length: `⟨dwt x, (a, d)⟩ = ⟨x, idwt (a, d)⟩`
+    for ANY filters (list form of `synthesis_is_adjoint`). -/
+theorem dwt1_adjoint (h g x a d : List R) (ha : a.length = dwtLen x.length h.length) (hd : d.length = a.length)
+    (hpos : 0 < h.length) :
+    dot (dwt1 h g x).1 a + dot (dwt1 h g x).2 d = dot x (idwt1 h g a d) := by
+  have hl := dwt1_length h g x
+  have hKN : x.length ≤ 2 * a.length + 2 - h.length := by rw [ha]; unfold dwtLen; omega
+  rw [dot_eq_sum _ a a.length (by simp), dot_eq_sum _ d a.length (by simp [hd]),
+    dot_eq_sum x _ x.length (by simp)]
+  have := synthesis_is_adjoint (ofList h) (ofList g) x.length a.length (ofListN x) (ofListN a) (ofListN d)
+  simp only [sumN_eq_sum] at this
+  have e1 : ∑ n ∈ range a.length, ofListN (dwt1 h g x).1 n * ofListN a n
+      = ∑ k ∈ range a.length, ana (ofList h) x.length (ofListN x) k * ofListN a k := by
+    apply sum_congr rfl; intro k hk
+    unfold dwt1; simp only [← ha]
+    rw [ofListN_map_range _ _ (mem_range.mp hk)]
+  have e2 : ∑ n ∈ range a.length, ofListN (dwt1 h g x).2 n * ofListN d n
+      = ∑ k ∈ range a.length, ana (ofList g) x.length (ofListN x) k * ofListN d k := by
+    apply sum_congr rfl; intro k hk
+    unfold dwt1; simp only [← ha]
+    rw [ofListN_map_range _ _ (mem_range.mp hk)]
+  have e3 : ∑ n ∈ range x.length, ofListN x n * ofListN (idwt1 h g a d) n
+      = ∑ n ∈ range x.length, ofListN x n * syn (ofList h) (ofList g) a.length (ofListN a) (ofListN d) n := by
+    apply sum_congr rfl; intro n hn
+    unfold idwt1
+    rw [ofListN_map_range _ _ (lt_of_lt_of_le (mem_range.mp hn) hKN)]
+  rw [e1, e2, e3]
+  exact this
+
+/-- length of `waverec` on coefficient lists of the advertised lengths: `z` for level 0, otherwise
+    `2⌊(z+L-1)/2⌋+2-L` (= `z` for even `z`, `L`) -/
+theorem waverec_length (h g : List R) (hpos : 0 < h.length) : ∀ (J z : ℕ) (c : List (List R)),
+    c.map List.length = coeffLens z h.length J →
+    (waverec h g c).length = if J = 0 then z else 2 * dwtLen z h.length + 2 - h.length := by
+  intro J
+  induction J with
+  | zero =>
+    intro z c hs
+    match c, hs with
+    | [], hs => simp [coeffLens] at hs
+    | [a], hs => simpa [waverec, coeffLens] using hs
+    | _ :: _ :: _, hs => simp [coeffLens] at hs
+  | succ J ih =>
+    intro z c hs
+    rcases List.eq_nil_or_concat' c with rfl | ⟨c', d, rfl⟩
+    · simp [coeffLens] at hs
+    · simp only [coeffLens, List.map_append, List.map_cons, List.map_nil] at hs
+      obtain ⟨hs', hd⟩ := List.append_inj' hs rfl
+      simp only [List.cons.injEq, and_true] at hd
+      have hc' : c' ≠ [] := by
+        intro h0; subst h0
+        cases J <;> simp [coeffLens] at hs'
+      have hlen := ih _ c' hs'
+      rw [waverec_append _ _ _ _ hc']
+      simp only [idwt1, List.length_map, List.length_range, if_neg (Nat.succ_ne_zero J)]
+      have : (if (waverec h g c').length = d.length + 1 then (waverec h g c').dropLast
+          else waverec h g c').length = dwtLen z h.length := by
+        split_ifs with h1
+        · simp [h1, hd]
+        · rw [hlen] at h1 ⊢
+          split_ifs at h1 ⊢ with h2
+          · rfl
+          · unfold dwtLen at *; omega
+      rw [this]
+
+/-- **C10 adjoint, multi-level 1-D (every level count, every intermediate length).**  For ANY filter pair and
+    ARBITRARY coefficient lists `c` of the advertised lengths (not only those in the range of `wavedec`):
+    `⟨wavedec x, c⟩ = ⟨x, waverec c⟩`, the trimming rule of `pywt.waverec` included. -/
+theorem wavedec_adjoint (h g : List R) (hpos : 0 < h.length) : ∀ (J : ℕ) (x : List R) (c : List (List R)),
+    c.map List.length = coeffLens x.length h.length J →
+    dots (wavedec h g J x) c = dot x (waverec h g c) := by
+  intro J
+  induction J with
+  | zero =>
+    intro x c hs
+    match c, hs with
+    | [], hs => simp [coeffLens] at hs
+    | [a], hs => simp [wavedec, waverec, dots]
+    | _ :: _ :: _, hs => simp [coeffLens] at hs
+  | succ J ih =>
+    intro x c hs
+    rcases List.eq_nil_or_concat' c with rfl | ⟨c', d, rfl⟩
+    · simp [coeffLens] at hs
+    · simp only [coeffLens, List.map_append, List.map_cons, List.map_nil] at hs
+      obtain ⟨hs', hd⟩ := List.append_inj' hs rfl
+      simp only [List.cons.injEq, and_true] at hd
+      have hc' : c' ≠ [] := by
+        intro h0; subst h0
+        cases J <;> simp [coeffLens] at hs'
+      have hl := dwt1_length h g x
+      have hlen := waverec_length h g hpos J _ c' hs'
+      show dots (wavedec h g J (dwt1 h g x).1 ++ [(dwt1 h g x).2]) (c' ++ [d]) = _
+      have hcl : (wavedec h g J (dwt1 h g x).1).length = c'.length := by
+        have := congrArg List.length (wavedec_map_length h g J (dwt1 h g x).1)
+        have h2 := congrArg List.length hs'
+        simp only [List.length_map] at this h2
+        rw [this, h2, hl.1]
+      rw [dots_append _ _ _ _ hcl, waverec_append _ _ _ _ hc', ih _ c' (by rw [hl.1]; exact hs')]
+      have htrim : (if (waverec h g c').length = d.length + 1 then (waverec h g c').dropLast
+          else waverec h g c') = (waverec h g c').take (dwt1 h g x).1.length := by
+        rw [hl.1]
+        split_ifs with h1
+        · rw [List.dropLast_eq_take, h1, hd]; rfl
+        · rw [List.take_of_length_le]
+          rw [hlen] at h1 ⊢
+          split_ifs at h1 ⊢ with h2
+          · exact le_refl _
+          · unfold dwtLen at *; omega
+      rw [htrim, ← dot_take _ (waverec h g c')]
+      apply dwt1_adjoint h g x _ d _ _ hpos
+      · rw [List.length_take, hl.1, hlen]
+        split_ifs with h2
+        · simp
+        · unfold dwtLen; omega
+      · rw [List.length_take, hl.1, hlen, hd]
+        split_ifs with h2
+        · simp
+        · unfold dwtLen; omega
+
+/-! ### (2') the full 1-D sigpy pipeline: pad to even, `wavedec`, pack | unpack, `waverec`, centre crop -/
+
+/-- `fwt`'s padding on a list: `util.resize(x, [zshape])` (C09 model with the generated default shifts and the
+    generated `zshape`) returns `x` for even length and `0 :: x` — the extra zero in FRONT — for odd length
+    (list form of `pad_extra_zero_in_front`). -/
+theorem pad_list (x : List R) :
+    (C09.resize [(x.length : Int)] [Gen.waveZshapeFwt x.length] none none x.toArray).toList
+      = if x.length % 2 = 0 then x else 0 :: x := by
+  rw [resize1d]
+  have hz := zshape_spec (x.length : Int)
+  by_cases hev : x.length % 2 = 0
+  · rw [if_pos (by omega), if_pos hev]
+  · rw [if_neg (by omega), if_neg hev]
+    apply List.ext_getElem
+    · simp; omega
+    · intro k h1 h2
+      simp only [List.getElem_map, List.getElem_range]
+      have key := pad_extra_zero_in_front (x.length : Int) (k : Int)
+      change (match padSrc (x.length : Int) (k : Int) with
+        | some j => x.getD j.toNat 0
+        | none => 0) = _
+      cases hp : padSrc (x.length : Int) (k : Int) with
+      | none =>
+        cases k with
+        | zero => rfl
+        | succ k =>
+          exfalso
+          have := (key (k : Int)).mpr ⟨by omega, by simp at h2; omega, by push_cast; omega⟩
+          rw [hp] at this; exact absurd this (by simp)
+      | some j =>
+        have := (key j).mp hp
+        cases k with
+        | zero => omega
+        | succ k =>
+          have hj : j.toNat = k := by omega
+          have hk : k < x.length := by simpa using h2
+          simp [hj, List.getElem?_eq_getElem hk]
+
+
+/-- `iwt`'s final `util.resize(y, [n])` on a list of the padded length: `y` itself for even `n`, `y` without
+    its FIRST sample for odd `n` (list form of `crop_is_pad_adjoint` + `pad_extra_zero_in_front`). -/
+theorem crop_list (y : List R) (n : ℕ) (hy : (y.length : Int) = Gen.waveZshapeShape n) :
+    (C09.resize [(y.length : Int)] [(n : Int)] none none y.toArray).toList
+      = if n % 2 = 0 then y else y.drop 1 := by
+  rw [resize1d]
+  have hz := zshape_spec (n : Int)
+  have hzz : Gen.waveZshapeShape (n : Int) = Gen.waveZshapeFwt n := zshape_sites_agree _
+  by_cases hev : n % 2 = 0
+  · rw [if_pos (by omega), if_pos hev]
+  · rw [if_neg (by omega), if_neg hev]
+    apply List.ext_getElem
+    · simp; omega
+    · intro j h1 h2
+      simp only [List.getElem_map, List.getElem_range]
+      have key := fun k => (crop_is_pad_adjoint (n : Int) k (j : Int)).symm.trans (pad_extra_zero_in_front (n : Int) k (j : Int))
+      rw [hy]
+      change (match cropSrc (n : Int) (j : Int) with
+        | some k => y.getD k.toNat 0
+        | none => 0) = _
+      have hj : j < n := by simp at h2; omega
+      have hk : j + 1 < y.length := by omega
+      have := (key ((j : Int) + 1)).mpr ⟨by omega, by omega, by omega⟩
+      rw [this]
+      simp [List.getElem?_eq_getElem hk]
+
+/-- **C10 perfect reconstruction, full 1-D pipeline.**  `iwt(fwt(x)) = x` for every length (odd included),
+    every level count (`level=None` → PyWavelets' max level) and every even-length filter pair satisfying
+    completeness: pad to even with the zero in front, `wavedec`, concatenate, split with the slices computed
+    from the padded length, `waverec` (trimming rule), centre crop.  Both `zshape` formulas (`fwt`'s and
+    `get_wavelet_shape`'s) enter: the proof breaks if they differ. -/
+theorem fwt1_iwt1_id (h g : List R) (hL : g.length = h.length) (hev : h.length % 2 = 0)
+    (hpos : 0 < h.length) (hc : Complete (ofList h) (ofList g)) (level : Option ℕ) (x : List R) :
+    iwt1 h g level x.length (fwt1 h g level x) = x := by
+  unfold iwt1 fwt1
+  simp only []
+  rw [pad_list]
+  have hz := zshape_spec (x.length : Int)
+  have hzz : Gen.waveZshapeShape (x.length : Int) = Gen.waveZshapeFwt x.length := zshape_sites_agree _
+  generalize hxz : (if x.length % 2 = 0 then x else 0 :: x) = xz
+  have hlen : (Gen.waveZshapeFwt (x.length : Int)).toNat = xz.length := by
+    rw [← hxz]; split_ifs <;> (try simp only [List.length_cons]) <;> omega
+  rw [hzz, hlen, ← wavedec_map_length h g, splitLens_flatten,
+    wavedec_perfect_reconstruction h g hL hev hpos hc _ _ (by omega)]
+  rw [crop_list xz x.length (by rw [hzz]; omega), ← hxz]
+  split_ifs <;> simp
+
+/-- **C10 isometry, full 1-D pipeline.**  `‖fwt x‖² = ‖x‖²` for every length and level. -/
+theorem fwt1_isometry (h g : List R) (hL : g.length = h.length) (hc : Complete (ofList h) (ofList g))
+    (level : Option ℕ) (x : List R) : nsq (fwt1 h g level x) = nsq x := by
+  unfold fwt1
+  simp only []
+  rw [pad_list, wavedec_packed_isometry h g hL hc]
+  split_ifs
+  · rfl
+  · simp [nsq]
+
+/-- **C10 advertised shape, 1-D.**  `len(fwt(x))` is the packed length computed from the padded length — the
+    formula `waveShape` (= `Wavelet.oshape`, by correspondence) uses on a transformed axis. -/
+theorem fwt1_length (h g : List R) (level : Option ℕ) (x : List R) :
+    (fwt1 h g level x).length
+      = packedLen (zlen x.length) h.length (level.getD (maxLevel (zlen x.length) h.length)) := by
+  unfold fwt1 packedLen zlen
+  simp only []
+  rw [List.length_flatten, wavedec_map_length, pad_list]
+  have hz := zshape_spec (x.length : Int)
+  have hlen : (if x.length % 2 = 0 then x else 0 :: x).length = (Gen.waveZshapeFwt (x.length : Int)).toNat := by
+    split_ifs <;> (try simp only [List.length_cons]) <;> omega
+  rw [hlen]
+
+/-- **C10 adjoint, full 1-D pipeline.**  `⟨fwt x, c⟩ = ⟨x, iwt c⟩` for ARBITRARY coefficient arrays `c` of the
+    advertised length, ANY filter pair of even length: `iwt = fwtᴴ` including crop = padᴴ, unpack = packᴴ and
+    the trimming rule. -/
+theorem iwt1_is_adjoint (h g : List R) (hev : h.length % 2 = 0) (hpos : 0 < h.length)
+    (level : Option ℕ) (x c : List R)
+    (hcl : c.length = packedLen (zlen x.length) h.length (level.getD (maxLevel (zlen x.length) h.length))) :
+    dot (fwt1 h g level x) c = dot x (iwt1 h g level x.length c) := by
+  unfold packedLen zlen at hcl
+  unfold iwt1 fwt1
+  simp only []
+  rw [pad_list]
+  have hz := zshape_spec (x.length : Int)
+  have hzz : Gen.waveZshapeShape (x.length : Int) = Gen.waveZshapeFwt x.length := zshape_sites_agree _
+  generalize hxz : (if x.length % 2 = 0 then x else 0 :: x) = xz
+  have hlen : (Gen.waveZshapeFwt (x.length : Int)).toNat = xz.length := by
+    rw [← hxz]; split_ifs <;> (try simp only [List.length_cons]) <;> omega
+  rw [hlen] at hcl
+  rw [hzz, hlen]
+  generalize hJ : level.getD (maxLevel xz.length h.length) = J at *
+  have hsp := splitLens_map_length _ c hcl
+  have hy := waverec_length h g hpos J xz.length _ hsp
+  have hy' : (waverec h g (splitLens (coeffLens xz.length h.length J) c)).length = xz.length := by
+    rw [hy]; split_ifs
+    · rfl
+    · unfold dwtLen; omega
+  conv_lhs => rw [← flatten_splitLens _ c hcl]
+  rw [dot_flatten _ _ (by rw [wavedec_map_length, hsp]), wavedec_adjoint h g hpos J xz _ hsp]
+  generalize waverec h g (splitLens (coeffLens xz.length h.length J) c) = y at *
+  rw [crop_list y x.length (by rw [hzz, hy']; omega), ← hxz]
+  split_ifs with h0
+  · rfl
+  · cases y with
+    | nil => simp at hy'; omega
+    | cons b y => simp [dot]
+
+/-! ### (3') separable N-d transform at level 1 as a composition of per-axis maps (arbitrary list of axes) -/
+
+/-- one level along an axis of length `N`, packed `[a | d]` (what `wavedecn(level=1)` + `coeffs_to_array`
+    put on a transformed axis), its transpose, and the packed length `2⌊(N+L-1)/2⌋` -/
+def level1Map (h g : ℤ → R) (L : ℕ) : AxisMap R where
+  fwd N x k := if k < dwtLen N L then ana h N x k else ana g N x (k - dwtLen N L)
+  bwd N c n := syn h g (dwtLen N L) c (fun k => c (dwtLen N L + k)) n
+  len N := 2 * dwtLen N L
+
+/-- sigpy's even padding along an axis of length `N` (extra zero in front for odd `N`), the centre crop back,
+    and the padded length -/
+def padMap : AxisMap R where
+  fwd N x k := if N % 2 = 0 then x k else if k = 0 then 0 else x (k - 1)
+  bwd N c n := c (n + N % 2)
+  len N := N + N % 2
+
+theorem level1Map_isIso {L : ℕ} {h g : ℤ → R} (hh : SupportedOn L h) (hg : SupportedOn L g)
+    (hc : Complete h g) : (level1Map h g L).IsIso := by
+  intro N x
+  have key := qmf_isometry_1level hh hg hc (M := dwtLen N L) (N := N) (by unfold dwtLen; omega) x
+  simp only [sumN_eq_sum] at key
+  simp only [level1Map]
+  rw [two_mul, sum_range_add, ← key]
+  congr 1
+  · apply sum_congr rfl; intro k hk
+    rw [if_pos (mem_range.mp hk)]
+  · apply sum_congr rfl; intro k _
+    rw [if_neg (by omega), Nat.add_sub_cancel_left]
+
+theorem level1Map_isAdj (h g : ℤ → R) (L : ℕ) : (level1Map h g L).IsAdj := by
+  intro N x c
+  have key := synthesis_is_adjoint h g N (dwtLen N L) x c (fun k => c (dwtLen N L + k))
+  simp only [sumN_eq_sum] at key
+  simp only [level1Map]
+  rw [two_mul, sum_range_add, ← key]
+  congr 1
+  · apply sum_congr rfl; intro k hk
+    rw [if_pos (mem_range.mp hk)]
+  · apply sum_congr rfl; intro k _
+    rw [if_neg (by omega), Nat.add_sub_cancel_left]
+
+theorem level1Map_isInv {L : ℕ} {h g : ℤ → R} (hh : SupportedOn L h) (hg : SupportedOn L g)
+    (hc : Complete h g) : (level1Map h g L).IsInv := by
+  constructor
+  · intro N x n hn
+    simp only [level1Map]
+    rw [← qmf_perfect_reconstruction hh hg hc (M := dwtLen N L) (N := N) (by unfold dwtLen; omega) x hn]
+    apply syn_congr
+    · intro k hk; rw [if_pos hk]
+    · intro k _; rw [if_neg (by omega), Nat.add_sub_cancel_left]
+  · intro N c c' hcc n _
+    simp only [level1Map] at hcc ⊢
+    apply syn_congr
+    · intro k hk; exact hcc k (by omega)
+    · intro k hk; exact hcc _ (by omega)
+
+theorem padMap_isIso : (padMap : AxisMap R).IsIso := by
+  intro N x
+  simp only [padMap]
+  rcases Nat.mod_two_eq_zero_or_one N with h0 | h1
+  · simp [h0]
+  · rw [h1, sum_range_succ']
+    simp
+
+theorem padMap_isAdj : (padMap : AxisMap R).IsAdj := by
+  intro N x c
+  simp only [padMap]
+  rcases Nat.mod_two_eq_zero_or_one N with h0 | h1
+  · simp [h0]
+  · rw [h1, sum_range_succ']
+    simp
+
+theorem padMap_isInv : (padMap : AxisMap R).IsInv := by
+  constructor
+  · intro N x n _
+    simp only [padMap]
+    rcases Nat.mod_two_eq_zero_or_one N with h0 | h1
+    · simp [h0]
+    · simp [h1]
+  · intro N c c' hcc n hn
+    simp only [padMap] at *
+    exact hcc _ (by omega)
+
+
+/-- the steps of `sigpy.fwt(x, axes, level=1)` on an array of rank `d`: every axis is padded to even, then one
+    filter-bank level runs along each axis of `axes` in turn (separable transform) -/
+def fwtnSteps (h g : ℤ → R) (L d : ℕ) (axes : List ℕ) : List (ℕ × AxisMap R) :=
+  (List.range d).map (fun a => (a, padMap)) ++ axes.map (fun a => (a, level1Map h g L))
+
+/-- `sigpy.fwt(X, axes, level=1)` / `sigpy.iwt(C, …, level=1)` as compositions of per-axis maps, and the
+    coefficient shape -/
+def fwtnLevel1 (h g : ℤ → R) (L : ℕ) (axes shape : List ℕ) (X : List ℕ → R) : List ℕ → R :=
+  applyAxes (fwtnSteps h g L shape.length axes) shape X
+def iwtnLevel1 (h g : ℤ → R) (L : ℕ) (axes shape : List ℕ) (C : List ℕ → R) : List ℕ → R :=
+  unapplyAxes (fwtnSteps h g L shape.length axes) shape C
+def fwtnShape (h g : ℤ → R) (L : ℕ) (axes shape : List ℕ) : List ℕ :=
+  shapeAxes (fwtnSteps h g L shape.length axes) shape
+
+theorem fwtnSteps_ok (h g : ℤ → R) (L : ℕ) (axes shape : List ℕ) (hax : ∀ a ∈ axes, a < shape.length)
+    (P : AxisMap R → Prop) (hp : P padMap) (hl : P (level1Map h g L)) :
+    ∀ s ∈ fwtnSteps h g L shape.length axes, s.1 < shape.length ∧ P s.2 := by
+  intro s hs
+  simp only [fwtnSteps, List.mem_append, List.mem_map, List.mem_range] at hs
+  rcases hs with ⟨a, ha, rfl⟩ | ⟨a, ha, rfl⟩
+  · exact ⟨ha, hp⟩
+  · exact ⟨hax a ha, hl⟩
+
+/-- **C10 isometry, N-d, level 1, arbitrary list of axes.**  `‖fwt X‖² = ‖X‖²` summed over the boxes. -/
+theorem fwtn_level1_isometry {L : ℕ} {h g : ℤ → R} (hh : SupportedOn L h) (hg : SupportedOn L g)
+    (hc : Complete h g) (axes shape : List ℕ) (hax : ∀ a ∈ axes, a < shape.length) (X : List ℕ → R) :
+    boxSum (fwtnShape h g L axes shape) (fun idx => fwtnLevel1 h g L axes shape X idx ^ 2)
+      = boxSum shape (fun idx => X idx ^ 2) :=
+  applyAxes_isometry _ shape X
+    (fwtnSteps_ok h g L axes shape hax AxisMap.IsIso padMap_isIso (level1Map_isIso hh hg hc))
+
+/-- **C10 adjoint, N-d, level 1, arbitrary list of axes, ANY filters, ARBITRARY coefficient arrays.** -/
+theorem fwtn_level1_adjoint (h g : ℤ → R) (L : ℕ) (axes shape : List ℕ) (hax : ∀ a ∈ axes, a < shape.length)
+    (X C : List ℕ → R) :
+    boxSum (fwtnShape h g L axes shape) (fun idx => fwtnLevel1 h g L axes shape X idx * C idx)
+      = boxSum shape (fun idx => X idx * iwtnLevel1 h g L axes shape C idx) :=
+  applyAxes_adjoint _ shape X C
+    (fwtnSteps_ok h g L axes shape hax AxisMap.IsAdj padMap_isAdj (level1Map_isAdj h g L))
+
+/-- **C10 perfect reconstruction, N-d, level 1, arbitrary list of axes**: at every multi-index of the box. -/
+theorem fwtn_level1_pr {L : ℕ} {h g : ℤ → R} (hh : SupportedOn L h) (hg : SupportedOn L g)
+    (hc : Complete h g) (axes shape : List ℕ) (hax : ∀ a ∈ axes, a < shape.length) (X : List ℕ → R)
+    (idx : List ℕ) (hidx : InBox shape idx) :
+    iwtnLevel1 h g L axes shape (fwtnLevel1 h g L axes shape X) idx = X idx :=
+  applyAxes_left_inverse _ shape X idx
+    (fwtnSteps_ok h g L axes shape hax AxisMap.IsInv padMap_isInv (level1Map_isInv hh hg hc)) hidx
+
+/-- the coefficient shape: transformed axes get `2⌊(z+L-1)/2⌋` with `z` the padded length, the others `z` -/
+example (h g : ℤ → R) : fwtnShape h g 4 [1] [5, 7] = [6, 10] ∧ fwtnShape h g 2 [0, 1] [3, 4] = [4, 4] := by
+  constructor <;> simp [fwtnShape, fwtnSteps, shapeAxes, padMap, level1Map, dwtLen, List.range_succ]
+
+
+/-! ### (4') `Complete` is not an independent hypothesis: it follows from the orthonormality of the low-pass
+    filter when the high-pass filter is its alternating flip (checked exactly for every pywt wavelet) -/
+
+/-- **Completeness from the orthonormality sums of `h` alone.**  If `h` has even length `L`, its even shifts
+    are orthonormal (`Σ_n h[n]h[n+2m] = δ_m`) and `g` is the alternating flip of `h`, then the two-channel bank
+    is complete (resolution of the identity) — pure index algebra: parity split and re-indexing. -/
+theorem complete_of_qmf_pair {L : ℕ} {h : ℤ → R} (hh : SupportedOn L h) (hev : L % 2 = 0)
+    (ho : ∀ m : ℤ, (∑ᶠ n : ℤ, h n * h (n + 2 * m)) = if m = 0 then 1 else 0)
+    (s : R) (hs : s * s = 1) : Complete h (altFlip s L h) := by
+  intro n n'
+  -- the summand, with the `g` part expressed through `h`
+  have hterm : ∀ k : ℤ, h (2 * k + 1 - n) * h (2 * k + 1 - n')
+        + altFlip s L h (2 * k + 1 - n) * altFlip s L h (2 * k + 1 - n')
+      = h (2 * k + 1 - n) * h (2 * k + 1 - n')
+        + (if (n + n') % 2 = 0 then (1 : R) else -1) * (h ((L : ℤ) - 2 + n - 2 * k) * h ((L : ℤ) - 2 + n' - 2 * k)) := by
+    intro k
+    unfold altFlip
+    have e1 : (L : ℤ) - 1 - (2 * k + 1 - n) = (L : ℤ) - 2 + n - 2 * k := by ring
+    have e2 : (L : ℤ) - 1 - (2 * k + 1 - n') = (L : ℤ) - 2 + n' - 2 * k := by ring
+    rw [e1, e2]
+    have e3 : (sgn (2 * k + 1 - n) * sgn (2 * k + 1 - n') : R) = if (n + n') % 2 = 0 then 1 else -1 := by
+      rw [sgn_mul_sgn]
+      split_ifs <;> first | rfl | omega
+    calc _ = h (2 * k + 1 - n) * h (2 * k + 1 - n') + (s * s) * (sgn (2 * k + 1 - n) * sgn (2 * k + 1 - n'))
+              * (h ((L : ℤ) - 2 + n - 2 * k) * h ((L : ℤ) - 2 + n' - 2 * k)) := by ring
+      _ = _ := by rw [hs, e3, one_mul]
+  rw [finsum_congr hterm]
+  have fA : (Function.support fun k : ℤ => h (2 * k + 1 - n) * h (2 * k + 1 - n')).Finite :=
+    finite_support_of_bound _ ((n - 1) / 2 - 1) ((L + n) / 2 + 1) (fun k hk => by rw [hh _ (by omega)]; ring)
+  have fB : ∀ c : R, (Function.support fun k : ℤ =>
+      c * (h ((L : ℤ) - 2 + n - 2 * k) * h ((L : ℤ) - 2 + n' - 2 * k))).Finite := fun c =>
+    finite_support_of_bound _ ((n - 2) / 2 - 1) ((L + n) / 2 + 1) (fun k hk => by rw [hh _ (by omega)]; ring)
+  rw [finsum_add_distrib fA (fB _)]
+  rcases Int.emod_two_eq_zero_or_one (n + n') with hpar | hpar
+  · -- same parity: n' = n + 2m
+    obtain ⟨m, hm⟩ : ∃ m : ℤ, n' = n + 2 * m := ⟨(n' - n) / 2, by omega⟩
+    subst hm
+    rw [if_pos hpar]
+    simp only [one_mul]
+    set F : ℤ → R := fun j => h j * h (j + 2 * m) with hF
+    have hFfin : (Function.support F).Finite :=
+      finite_support_of_bound _ (-1) (L + 1) (fun k hk => by simp only [hF]; rw [hh _ (by omega)]; ring)
+    have eA : (∑ᶠ k : ℤ, h (2 * k + 1 - n) * h (2 * k + 1 - (n + 2 * m)))
+        = ∑ᶠ k : ℤ, F (2 * k + (1 - n - 2 * m)) := by
+      apply finsum_congr; intro k
+      simp only [hF]
+      rw [mul_comm]
+      congr 1 <;> (congr 1; ring)
+    have eB : (∑ᶠ k : ℤ, h ((L : ℤ) - 2 + n - 2 * k) * h ((L : ℤ) - 2 + (n + 2 * m) - 2 * k))
+        = ∑ᶠ k : ℤ, F (2 * k + ((L : ℤ) - 2 + n)) := by
+      rw [← finsum_flip2]
+      apply finsum_congr; intro k
+      simp only [hF]
+      congr 1; congr 1; ring
+    rw [eA, eB]
+    have hd : (if n = n + 2 * m then (1 : R) else 0) = if m = 0 then 1 else 0 := by
+      split_ifs <;> first | rfl | omega
+    rw [hd, ← ho m, finsum_even_odd F hFfin]
+    rcases Int.emod_two_eq_zero_or_one n with hn | hn
+    · have e1 : 1 - n - 2 * m = 1 + 2 * ((1 - n - 2 * m - 1) / 2) := by omega
+      have e2 : (L : ℤ) - 2 + n = 0 + 2 * (((L : ℤ) - 2 + n) / 2) := by omega
+      rw [e1, e2, finsum_shift2, finsum_shift2, add_comm]
+    · have e1 : 1 - n - 2 * m = 0 + 2 * ((1 - n - 2 * m) / 2) := by omega
+      have e2 : (L : ℤ) - 2 + n = 1 + 2 * (((L : ℤ) - 2 + n - 1) / 2) := by omega
+      rw [e1, e2, finsum_shift2, finsum_shift2]
+  · -- different parity: the two sums cancel
+    have hne : n ≠ n' := by omega
+    rw [if_neg (by omega), if_neg hne]
+    simp only [neg_mul, one_mul]
+    rw [finsum_neg_distrib]
+    set G : ℤ → R := fun j => h j * h (j + (n' - n)) with hG
+    have eA : (∑ᶠ k : ℤ, h (2 * k + 1 - n) * h (2 * k + 1 - n')) = ∑ᶠ k : ℤ, G (2 * k + (1 - n')) := by
+      apply finsum_congr; intro k
+      simp only [hG]
+      rw [mul_comm]
+      congr 1 <;> (congr 1; ring)
+    have eB : (∑ᶠ k : ℤ, h ((L : ℤ) - 2 + n - 2 * k) * h ((L : ℤ) - 2 + n' - 2 * k))
+        = ∑ᶠ k : ℤ, G (2 * k + ((L : ℤ) - 2 + n)) := by
+      rw [← finsum_flip2]
+      apply finsum_congr; intro k
+      simp only [hG]
+      congr 1; congr 1; ring
+    have e2 : (L : ℤ) - 2 + n = (1 - n') + 2 * (((L : ℤ) - 3 + n + n') / 2) := by omega
+    rw [eA, eB, e2, finsum_shift2, add_neg_cancel]
+
+
+/-- orthonormality of the even shifts of the low-pass filter alone: `Σ_n h[n]·h[n+2m] = δ_m` -/
+def OrthonormalLo (h : ℤ → R) : Prop := ∀ m : ℤ, (∑ᶠ n : ℤ, h n * h (n + 2 * m)) = if m = 0 then 1 else 0
+
+/-- list form: for a low-pass filter of even length with orthonormal even shifts, the pair
+    `(dec_lo, alternating flip of dec_lo)` — which is what every orthogonal PyWavelets wavelet is, exactly
+    (correspondence stream `filters`, `s = -1`) — is complete. -/
+theorem complete_of_orthonormal_lo (h : List R) (hev : h.length % 2 = 0) (ho : OrthonormalLo (ofList h))
+    (s : R) (hs : s * s = 1) : Complete (ofList h) (ofList (altFlipL s h)) := by
+  rw [ofList_altFlipL]
+  exact complete_of_qmf_pair (supportedOn_ofList h) hev ho s hs
+
+/-- **C10, full 1-D pipeline, from the orthonormality of `dec_lo` alone**: perfect reconstruction, isometry
+    (and `iwt1_is_adjoint`, which needs no filter hypothesis) for `dec_hi` = alternating flip of `dec_lo`. -/
+theorem fwt1_iwt1_id_qmf (h : List R) (hev : h.length % 2 = 0) (hpos : 0 < h.length)
+    (ho : OrthonormalLo (ofList h)) (s : R) (hs : s * s = 1) (level : Option ℕ) (x : List R) :
+    iwt1 h (altFlipL s h) level x.length (fwt1 h (altFlipL s h) level x) = x :=
+  fwt1_iwt1_id h _ (altFlipL_length s h) hev hpos (complete_of_orthonormal_lo h hev ho s hs) level x
+
+theorem fwt1_isometry_qmf (h : List R) (hev : h.length % 2 = 0)
+    (ho : OrthonormalLo (ofList h)) (s : R) (hs : s * s = 1) (level : Option ℕ) (x : List R) :
+    nsq (fwt1 h (altFlipL s h) level x) = nsq x :=
+  fwt1_isometry h _ (altFlipL_length s h) (complete_of_orthonormal_lo h hev ho s hs) level x
+
+/-- non-vacuity: the Haar high-pass filter is the alternating flip (`s = -1`) of the Haar low-pass filter, and
+    `complete_of_qmf_pair` reproves `haar_complete` from the orthonormality of the low-pass filter alone -/
+example (s : R) (hs : 2 * (s * s) = 1) : Complete (haarLo s) (altFlip (-1) 2 (haarLo s)) :=
+  complete_of_qmf_pair (haar_supported s).1 (by norm_num) (haar_orthonormal s hs).1 (-1) (by ring)
+
+example (s : R) : altFlip (-1) 2 (haarLo s) = haarHi s := by
+  funext j
+  simp only [altFlip, haarLo, haarHi, sgn]
+  split_ifs <;> first | omega | ring
+
+/-- the list transform at level 1 on an even-length axis IS the per-axis map `level1Map` used in the N-d
+    theorems (ties `fwtn_level1_*` to the executed `fwt1`, which the `separable` stream composes per axis) -/
+theorem fwt1_level1_eq (h g x : List R) (hx : x.length % 2 = 0) :
+    fwt1 h g (some 1) x = (List.range ((level1Map (ofList h) (ofList g) h.length).len x.length)).map
+      ((level1Map (ofList h) (ofList g) h.length).fwd x.length (ofListN x)) := by
+  unfold fwt1
+  simp only [Option.getD_some]
+  rw [pad_list, if_pos hx]
+  simp only [wavedec, dwt1, level1Map, List.flatten_append, List.flatten_cons, List.flatten_nil, List.append_nil]
+  rw [two_mul, List.range_add, List.map_append, List.map_map]
+  congr 1
+  · apply List.map_congr_left; intro k hk
+    rw [if_pos (List.mem_range.mp hk)]
+  · apply List.map_congr_left; intro k _
+    simp only [Function.comp]
+    rw [if_neg (by omega), Nat.add_sub_cancel_left]
+
+/-! ### non-vacuity of the list-model and pipeline theorems: Haar as a list filter pair over ℝ -/
+
+theorem ofList_haar (s : R) : ofList [s, s] = haarLo s ∧ ofList [-s, s] = haarHi s := by
+  constructor <;> funext j
+  all_goals
+    simp only [ofList, haarLo, haarHi]
+    by_cases h0 : j = 0
+    · subst h0; simp
+    · by_cases h1 : j = 1
+      · subst h1; simp
+      · by_cases hn : 0 ≤ j
+        · obtain ⟨n, hn2⟩ : ∃ n, j.toNat = n + 2 := ⟨j.toNat - 2, by omega⟩
+          simp [hn, hn2, h0, h1]
+        · simp [hn, h0, h1]
+
+/-- `sp.iwt(sp.fwt(x, 'haar')) = x`, `‖fwt x‖ = ‖x‖` in the model, every length, `level=None`
+    (instances of `fwt1_iwt1_id`, `fwt1_isometry`) -/
+example (x : List ℝ) :
+    iwt1 [√2 / 2, √2 / 2] [-(√2 / 2), √2 / 2] none x.length (fwt1 [√2 / 2, √2 / 2] [-(√2 / 2), √2 / 2] none x) = x ∧
+    nsq (fwt1 [√2 / 2, √2 / 2] [-(√2 / 2), √2 / 2] none x) = nsq x := by
+  have hc : Complete (ofList [√2 / 2, √2 / 2]) (ofList [-(√2 / 2), √2 / 2] : ℤ → ℝ) := by
+    rw [(ofList_haar _).1, (ofList_haar _).2]; exact haar_real.2.2.1
+  exact ⟨fwt1_iwt1_id [√2 / 2, √2 / 2] [-(√2 / 2), √2 / 2] (by simp) (by simp) (by simp) hc none x,
+    fwt1_isometry [√2 / 2, √2 / 2] [-(√2 / 2), √2 / 2] (by simp) hc none x⟩
+
+/-- the odd-length case of the exact multi-level statement is not vacuous: three Haar levels of a length-5 signal
+    reconstruct to the signal followed by one zero -/
+example (x : List ℝ) (hx : x.length = 5) :
+    waverec [√2 / 2, √2 / 2] [-(√2 / 2), √2 / 2] (wavedec [√2 / 2, √2 / 2] [-(√2 / 2), √2 / 2] 3 x) = x ++ [0] := by
+  have hc : Complete (ofList [√2 / 2, √2 / 2]) (ofList [-(√2 / 2), √2 / 2] : ℤ → ℝ) := by
+    rw [(ofList_haar _).1, (ofList_haar _).2]; exact haar_real.2.2.1
+  rw [waverec_wavedec [√2 / 2, √2 / 2] [-(√2 / 2), √2 / 2] (by simp) (by simp) (by simp) hc, if_neg (by omega)]
 
 end SigpyVerif.C10
